@@ -131,7 +131,7 @@ let rec take k l = if k <= 0 then [] else match l with [] -> [] | x :: t -> x ::
 let rec drop k l = if k <= 0 then l else match l with [] -> [] | _ :: t -> drop (k - 1) t
 
 (* common printing of an encap-like result *)
-let enc_result (w : world) (r : ((enc_state * byte list) * enc_result) res) (before : int list) (pdu : n list)
+let enc_result (w : world) (r : ((enc_state * n list) * enc_result) res) (before : int list) (pdu : n list)
     (update_state : bool) : string =
   match r with
   | Panic -> "PANIC"
